@@ -723,6 +723,73 @@ pub fn run_c14(rep: &mut Report) {
         }
     }
 
+    // ---------------------------------------------------------------- the shipped layouts, typed instantiations: what the decoder returns for a press
+    //      must be what that layout itself returns for (key, reported modifiers, reported mode)
+    {
+        use crate::mon_through::{history, HOp};
+        let (n_hist, len) = if rep.thorough() { (3000usize, 400usize) } else { (100, 250) };
+        let focus: Vec<KeyCode> = uni.iter().copied().filter(|k| !MOD_KEYS.contains(k)).collect();
+        let mut compared = 0u64;
+        let mut aborted = 0u64;
+        for li in 0..10 {
+            for h in 0..n_hist {
+                let mut rng = Rng::fork(rep.seed, 0xC14_7000 + ((li as u64) << 20) + h as u64);
+                let ops = history(&mut rng, &focus, &uni, len);
+                let r = guarded(|| {
+                    crate::with_layout!(li, l => {
+                        let direct = bare_dyn(li);
+                        let mut kb = Keyboard::new(ScancodeSet1::new(), l, if h % 2 == 0 { HandleControl::Ignore } else { HandleControl::MapLettersToUnicode });
+                        let mut n = 0u64;
+                        let mut bad = None;
+                        for (i, op) in ops.iter().enumerate() {
+                            match op {
+                                HOp::Mode(m) => kb.set_ctrl_handling(MODES[*m]),
+                                HOp::Ev(k, st) => {
+                                    let got = kb.process_keyevent(KeyEvent::new(*k, *st));
+                                    if *st == KeyState::Down && !MOD_KEYS.contains(k) {
+                                        let want = direct.map_keycode(*k, kb.get_modifiers(), kb.get_ctrl_handling());
+                                        n += 1;
+                                        if got != Some(want) {
+                                            bad = Some((i, *k, bits_from_mods(kb.get_modifiers()), kb.get_ctrl_handling(), got, want));
+                                            break;
+                                        }
+                                    }
+                                }
+                            }
+                        }
+                        (n, bad)
+                    })
+                });
+                match r {
+                    Ok((n, bad)) => {
+                        compared += n;
+                        if let Some((i, k, m, mode, got, want)) = bad {
+                            let tail: Vec<String> = ops[i.saturating_sub(8)..=i].iter().map(|o| o.show()).collect();
+                            rep.violate(
+                                format!("C14|shipped-layout|{}|key={:?}|want={}|got={}", LAYOUT_NAMES[li], k, dk_str(&want), odk_str(&got)),
+                                format!(
+                                    "Keyboard<{}, _>: after … {} the press of {:?} returned {}, but the installed layout returns {} for that key under the reported modifiers {} and mode {}",
+                                    LAYOUT_NAMES[li],
+                                    tail.join(", "),
+                                    k,
+                                    odk_str(&got),
+                                    dk_str(&want),
+                                    mods_str(m),
+                                    mode_str(mode)
+                                ),
+                                J::obj().with("kind", J::s("events")).with("layout", J::s(LAYOUT_NAMES[li])).with("ops", J::strs(ops[..=i].iter().map(|o| o.show()))).with("expected_last", J::s(dk_str(&want))).with("observed_last", J::s(odk_str(&got))),
+                            );
+                        }
+                    }
+                    Err(_) => aborted += 1,
+                }
+            }
+        }
+        rep.evaluations += compared;
+        rep.count("shipped_layout_presses_compared_with_a_direct_layout_call", compared);
+        rep.count("shipped_layout_histories_aborted_by_a_panic(C08_matter)", aborted);
+    }
+
     rep.distinct_nontrivial = distinct_all.len() as u64;
     rep.exhaustive = Some(states.len() < BFS_CAP);
     rep.rule = "a recording layout answers every consultation with a unique token, so a decoded key identifies the exact map_keycode call that produced it; from every one of the decoder's states (BFS closure) every key × {Down, Up, SingleShot} is applied: releases/one-shots must yield None, modifier/lock presses their own raw key (NumLock under the hidden Ctrl → PauseBreak), any other press the token of exactly one call made with (that key, the decoder's live modifiers, the current mode) on the currently installed layout instance; \
